@@ -49,8 +49,8 @@ def run(tier):
     for r, f, (cl, _) in zip(recs, [f for f in fams if not f["exc"]], v2):
         ck.count(("fam", f["n"], f["conn"]))
         bad = cl & FAM_CLAUSES
-        if f["info_keys"] != sorted(["num circuits", "max two-qubit count", "max two-qubit depth", "average two-qubit count"]):
-            bad = bad | {"info-keys"}
+        if not set(["num circuits", "max two-qubit count", "max two-qubit depth", "average two-qubit count"]) <= set(f["info_keys"]):
+            bad = bad | {"info-keys"}        # the four documented keys must be present (further keys are harmless)
         if bad:
             ck.violation(f"mubfam {f['n']} {f['conn']}", f"MUB family ({f['n']},{f['conn']}) fails {sorted(bad)}; info={f['info']}", {"record": {k: r[k] for k in ('op', 'n', 'info')}, "n": f["n"], "conn": f["conn"], "clauses": sorted(bad)})
         else:
